@@ -480,13 +480,13 @@ func witnesses() []scenario {
 			Next: fixedSteps(step{P: params{Window: 337 * hour, Trusting: 336 * hour}})},
 		{Name: "w-default-params-old-tail", Witness: "fixed:F8", Gaps0: rep(hour, 9), Adv0: sec, Batch: 1, PreTail: 1, PreHead: 5,
 			Next: fixedSteps(step{P: params{Window: 2 * hour, Trusting: 336 * hour}})},
-		{Name: "w-tail-above-store-head", Witness: "F9a", Gaps0: rep(10*ns, 199), Adv0: ns, Batch: 1, PreTail: 1, PreHead: 50,
+		{Name: "w-tail-above-store-head", Witness: "fixed:F9a", Gaps0: rep(10*ns, 199), Adv0: ns, Batch: 1, PreTail: 1, PreHead: 50,
 			Next: fixedSteps(step{P: wp(200*ns, 10*ns)}, step{P: wp(200*ns, 10*ns)})},
-		{Name: "w-expired-restart-wedge", Witness: "F9a", Gaps0: append(append(rep(sec, 49), 5000*sec), rep(sec, 149)...), Adv0: ns, Batch: 1, PreTail: 1, PreHead: 50,
+		{Name: "w-expired-restart-wedge", Witness: "fixed:F9a", Gaps0: append(append(rep(sec, 49), 5000*sec), rep(sec, 149)...), Adv0: ns, Batch: 1, PreTail: 1, PreHead: 50,
 			Next: fixedSteps(step{P: params{Window: 20 * sec, Trusting: 1000 * sec, Block: sec, BlockSet: true}},
 				step{P: params{Window: 20 * sec, Trusting: 1000 * sec, Block: sec, BlockSet: true}},
 				step{Grow: rep(sec, 5), P: params{Window: 20 * sec, Trusting: 1000 * sec, Block: sec, BlockSet: true}})},
-		{Name: "w-sync-from-height-above-store-head", Witness: "F9a", Gaps0: rep(sec, 99), Adv0: ns, Batch: 1, PreTail: 1, PreHead: 50,
+		{Name: "w-sync-from-height-above-store-head", Witness: "fixed:F9a", Gaps0: rep(sec, 99), Adv0: ns, Batch: 1, PreTail: 1, PreHead: 50,
 			Next: fixedSteps(step{P: params{Window: 337 * hour, From: 80, Trusting: big, Block: sec, BlockSet: true, Recency: ns}})},
 		{Name: "w-halted-chain-wrap", Witness: "fixed:F9b", Gaps0: append(rep(sec, 29), 1000*sec), Adv0: ns, Batch: 1, PreTail: 1, PreHead: 30,
 			Next: fixedSteps(step{P: wp(70*sec, sec)}, step{Grow: rep(sec, 1), P: wp(70*sec, sec)}, step{Grow: rep(sec, 1), P: wp(70*sec, sec)})},
@@ -496,6 +496,8 @@ func witnesses() []scenario {
 			Next: fixedSteps(step{P: wp(100*ns, 10*ns)})},
 		{Name: "w-fast-blocks-estimate-above-store-head", Witness: "fixed:F9c", Gaps0: rep(5*ns, 60), Adv0: ns, Batch: 1, PreTail: 1, PreHead: 50,
 			Next: fixedSteps(step{P: wp(100*ns, 10*ns)})},
+		{Name: "w-lagging-store-fast-blocks", Witness: "fixed:F9a", Gaps0: []int64{2, 3, 2, 3, 2, 3, 2, 3, 2, 3, 2, 3, 2, 3, 2, 3, 2, 3, 2, 3, 2, 3, 2, 3, 2, 3, 2, 3}, Adv0: ns, Batch: 1, PreTail: 15, PreHead: 23,
+			Next: fixedSteps(step{P: wp(19*ns, 10*ns)}, step{Grow: []int64{2}, P: wp(19*ns, 10*ns)})},
 		{Name: "w-exact-blocks-far", Gaps0: rep(10*ns, 60), Adv0: ns, Batch: 1, PreTail: 1, PreHead: 60,
 			Next: fixedSteps(step{P: wp(100*ns, 10*ns)})},
 		{Name: "w-exact-blocks-close", Gaps0: rep(10*ns, 60), Adv0: ns, Batch: 1, PreTail: 45, PreHead: 60,
